@@ -61,6 +61,64 @@ func zzC14_cache_loadorstore() {
 	}
 }
 
+// sequential semantics of the expiring cache on two entries with symbolic deadlines (zero = never expires) and a
+// symbolic sweep instant: an entry is gone after the sweep exactly when its deadline lies strictly before the
+// sweep instant; its expiry callback ran exactly once with its data; Load never returns an expired entry
+func zzC14_cache_seq() {
+	c := NewCache[uint64, int]()
+	now := symI64("now")
+	symAssume(now > 1<<40 && now < 1<<60)
+	var until [2]int64
+	var fired [2]int
+	var el [2]*Element[int]
+	for k := 0; k < 2; k++ {
+		until[k] = symI64("validUntil")
+		symAssume(until[k] >= 0 && until[k] < 1<<60)
+		kk := k
+		var t time.Time // zero: no deadline
+		if until[k] != 0 {
+			t = time.Unix(0, until[k])
+		}
+		el[k] = NewElement(10+k, t, func(d int) {
+			if d == 10+kk {
+				fired[kk]++
+			} else {
+				fired[kk] += 100
+			}
+		})
+		_, loaded := c.LoadOrStore(uint64(k), el[k])
+		symAssert(!loaded, "a new key is stored")
+	}
+	symSetNow(time.Unix(0, now))
+	for k := 0; k < 2; k++ {
+		exp := until[k] != 0 && now > until[k]
+		got := c.Load(uint64(k))
+		if exp {
+			symAssert(got == nil, "Load does not return an expired entry")
+		} else {
+			symAssert(got == el[k], "Load returns an entry that has not expired")
+		}
+		symAssert(el[k].IsExpired(time.Unix(0, now)) == exp, "an entry is expired exactly when its deadline lies strictly before now (no deadline: never)")
+	}
+	c.CheckExpirations(time.Unix(0, now))
+	n := 0
+	for k := 0; k < 2; k++ {
+		exp := until[k] != 0 && now > until[k]
+		_, present := c.Map.Load(uint64(k))
+		if exp {
+			symCover("swept")
+			symAssert(!present && fired[k] == 1, "the sweep removes an expired entry and runs its expiry callback once with its data")
+		} else {
+			n++
+			symCover("kept")
+			symAssert(present && fired[k] == 0, "the sweep keeps an entry that has not expired and does not run its callback")
+		}
+	}
+	symAssert(c.Length() == n, "nothing else is in the cache")
+	c.CheckExpirations(time.Unix(0, now))
+	symAssert(fired[0] <= 1 && fired[1] <= 1, "a second sweep runs no callback again")
+}
+
 func zzC14_cache_selftest() {
 	c := NewCache[uint64, int]()
 	now := symI64("now")
